@@ -459,6 +459,9 @@ func (w *World) leaf(issuer, probe, cdp int) [][]*x509.Certificate {
 // Checker returns the running checker.
 func (w *World) Checker() *crl.CRLRevocationChecker { return w.checker }
 
+// Opts returns the options the running instance was provisioned with.
+func (w *World) Opts() world.CRLOpts { return w.opts() }
+
 // WorkDir returns the work_dir.
 func (w *World) WorkDir() string { return w.workDir }
 
